@@ -71,6 +71,11 @@ class C06(Check):
         for h in [x for x in b["heights"] if x >= 2]:
             for n in (1, 2):
                 out.append({"api": "old", "h": h, "dv": -1, "frames": n, "loops": 1})
+        # animated draw of the iterm2 style through its real _display_animated (wezterm pre-erase) / _render_image (WHOLE)
+        for t_ in ("iterm2", "wezterm", "konsole"):
+            for h in ((1, 2) if tier == "quick" else (1, 2, 3)):
+                for dv in ((0, 1) if tier == "quick" else (0, 1, 2)):
+                    out.append({"api": "old", "part": "iterm2_anim", "term": t_, "h": h, "dv": dv, "frames": 2, "loops": 1})
         # per-frame clearing of the kitty graphics style (real renderer, real clearing hooks), per terminal version
         for version in ([0, 24, 0], [0, 25, 0], [0, 25, 1], [0, 30, 0]):
             for method in ("lines", "whole"):
@@ -265,12 +270,13 @@ class C06(Check):
         finally:
             sys.stdout = old
         eng.reachable()
-        t = dc.run_term(W, H, y0, px, py, stream.delivered).finish()
+        t = dc.run_term(W, H, y0, px, py, stream.delivered, preset_sgr=True).finish()
         from .common_render import claim_events
 
         claim_events(eng, t)
         per_frame = h if shape["method"] == "lines" else 1
         total = n * loops * per_frame
+        eng.claim("kitty animation: cursor visible and text attributes reset (whatever was active before)", z3.And(t.cursor_visible, t.sgr_default()))
         eng.claim("kitty animation: every frame is transmitted and placed (frames x loops x placements per frame)", len(t.placements) == total)
         if len(t.placements) != total:
             return
@@ -282,10 +288,92 @@ class C06(Check):
         eng.claim("kitty animation: the last frame is placed where the first one was", z3.And(last["col"] == first["col"], last["row"] == first["row"], last["cols"] == first["cols"]))
         eng.observe("placements", len(t.placements))
 
+    # ------------------------------------------------------- iterm2 animation
+    def iterm2_anim(self, eng, shape):
+        """A two-frame animation drawn with the iterm2 style (WHOLE method) through the real ITerm2Image.draw /
+        _display_animated (incl. the wezterm pre-erase) / _render_image / _format_render, with padding."""
+        from term_image.image import ITerm2Image, iterm2
+
+        from sx.term import GRAPHIC
+
+        from . import common_render as cr
+
+        common = self.common
+        W, H, y0, px, py = dc.screen(eng)
+        h, n, loops, dv = shape["h"], shape["frames"], shape["loops"], shape["dv"]
+        w = eng.int("render_w", 1, 1 << 10)
+        pr = eng.int("pad_right", 0, 1 << 10)
+        Wp, Hp = w + pr, h + dv
+        # the padded region fits below the start row: what a terminal does with an image placed partly below the screen
+        # (clip / scroll) is terminal-specific and outside the model
+        eng.assume(sym_and(Wp <= W, y0 + Hp < H))
+        tsize = dc.TS((W, H))
+        common.get_terminal_size = lambda: tsize
+        common.time = type("time", (), {"sleep": staticmethod(lambda s: None), "time": staticmethod(lambda: 0.0)})
+        ITerm2Image._supported = True
+        ITerm2Image._TERM = shape["term"]
+        common.get_cell_size = lambda: (2, 3)
+        iterm2.standard_b64encode = cr.b64_stub(eng)
+        iterm2._stdout_write = lambda s_: sys.stdout.write(s_)
+        eng.registry = cr.Registry()
+        img = ITerm2Image(self.PIL.new("RGB", (1, 1)), width=1, height=1)
+        img._size = (w, h)
+        img._original_size = (eng.int("ori_w", 1, 1 << 10), eng.int("ori_h", 1, 1 << 10))
+        img._is_animated, img._n_frames, img._frame_duration, img._seek_position = True, n, 0.1, 0
+
+        class Src:
+            mode = "RGB"
+
+            def seek(s_, k):
+                pass
+
+            def close(s_):
+                pass
+
+        img._source = Src()
+
+        def get_render_data(self_, im, alpha, *, size=None, pixel_data=True, round_alpha=False, frame=False):
+            if self_._seek_position >= n:
+                raise EOFError
+            return (cr.FakeImg(eng, "RGB", tuple(size), f"frame{self_._seek_position}"), None, None)
+
+        type(img)._get_render_data = get_render_data
+        va = ["^", "-", "_"][eng.choice("v_align", 3)]
+        top = {"^": 0, "_": dv}.get(va, dv // 2)
+        stream = dc.Stream(eng, True)
+        old = sys.stdout
+        sys.stdout = stream
+        try:
+            img.draw("<", Wp, va, Hp, None, repeat=loops, cached=False, check_size=False, method="whole", mix=bool(eng.bool("mix")))
+        finally:
+            sys.stdout = old
+        eng.reachable()
+        t = dc.run_term(W, H, y0, px, py, stream.delivered, preset_sgr=True).finish()
+        from .common_render import claim_events
+
+        claim_events(eng, t)
+        x1, yb = z3.IntVal(0), term(y0) + top
+        in_inner = z3.And(term(px) >= x1, term(px) < x1 + term(w), term(py) >= yb, term(py) < yb + h)
+        in_box = z3.And(term(px) >= 0, term(px) < term(Wp), term(py) >= term(y0), term(py) < term(y0) + Hp)
+        eng.claim("every frame is placed (frames x loops images)", len(t.placements) == n * loops)
+        if len(t.placements) == n * loops:
+            eng.claim("final picture: the last frame's image sits exactly where the first frame was drawn",
+                      z3.Implies(in_inner, z3.And(t.p_written, t.p_glyph == GRAPHIC, t.p_image == n * loops - 1)))
+            first, last = t.placements[0], t.placements[-1]
+            eng.claim("every frame is drawn over the same cells", z3.And(last["col"] == first["col"], last["row"] == first["row"], last["cols"] == first["cols"], last["rows"] == first["rows"]))
+        eng.claim("every cell outside the padded region is as before", z3.Implies(z3.Not(in_box), z3.Not(t.p_written)))
+        eng.claim("cursor ends at the start of the line immediately below the padded region", z3.And(t.col == 0, t.row == term(y0) + Hp))
+        eng.claim("cursor visible and text attributes reset", z3.And(t.cursor_visible, t.sgr_default()))
+        need = term(y0) + Hp - (term(H) - 1)
+        eng.claim("the screen scrolls exactly as far as the region's height makes necessary", t.top == z3.If(need > 0, need, 0))
+        eng.observe("placements", len(t.placements))
+
     # ------------------------------------------------------------------ body
     def body(self, eng, shape):
         if shape.get("part") == "kitty_clearing":
             return self.kitty_clearing(eng, shape)
+        if shape.get("part") == "iterm2_anim":
+            return self.iterm2_anim(eng, shape)
         W, H, y0, px, py = dc.screen(eng)
         tty = bool(eng.bool("stdout_is_a_tty"))
         stream = dc.Stream(eng, tty)
@@ -317,7 +405,9 @@ class C06(Check):
         x1, yb = term(left), term(y0) + top
         in_inner = z3.And(term(px) >= x1, term(px) < x1 + term(w), term(py) >= yb, term(py) < yb + h)
         in_box = z3.And(term(px) >= 0, term(px) < term(Wp), term(py) >= term(y0), term(py) < term(y0) + Hp)
-        t = dc.run_term(W, H, y0, px, py, stream.delivered).finish()
+        # old API: BaseImage.draw() promises to reset the attributes (whatever the caller left active); the renderable API
+        # does not touch them, so there the claim is "not left changed"
+        t = dc.run_term(W, H, y0, px, py, stream.delivered, preset_sgr=shape["api"] == "old").finish()
         from .common_render import claim_events
 
         # wrap events matter; scrolling is legitimate here
